@@ -1307,7 +1307,7 @@ def run(ctx):
         ok, info = False, info2
         ctx.note("regenerated model (coq/gen/C19_Equiv.v) not discharged: %s" % str(info2)[:400])
         # the tie is broken: widen the differential sweep (towards the thorough-size generators) to find a concrete failing input
-        ctx.n = lambda quick, thorough: max(quick, (2 * quick + thorough) // 3)
+        ctx.n = lambda quick, thorough: max(quick, (4 * quick + thorough) // 5)
     if not ok:
         ctx.discharged = min(ctx.discharged, ctx.obligations - 1)
     for name, fn in SUBS:
